@@ -185,6 +185,32 @@ func run(c Case) *h.Result {
 			}
 		}
 	}
+	// once more in a world where every variable name of the pool is also a global variable: the programs are closed, so
+	// every occurrence of such a name is bound by the program and must not see (or change) the global
+	for i, name := range []string{"a", "b", "c", "d", "w"} {
+		slip.CurrentPackage.Set(name, slip.Fixnum(9001+i))
+	}
+	defer func() {
+		for _, name := range []string{"a", "b", "c", "d", "w"} {
+			slip.CurrentPackage.Remove(name)
+		}
+	}()
+	undefine(forms)
+	m.Trace = nil
+	wantG := m.Run(forms)
+	ev.ResetTrace()
+	gotG := ev.EvalForms(slip.NewScope(), c.Prog)
+	gotTraceG := ev.TraceString()
+	if gotG.Kind != ev.Value || showVals(wantG.Vals) != show(gotG.Val) || wantG.Trace != gotTraceG {
+		res.Err = fmt.Sprintf("program evaluated while global variables named a b c d w exist (values 9001..9005):\n%s\n  expected value %s\n  got %s\n  expected trace: %s\n  got trace:      %s", c.Prog, showVals(wantG.Vals), gotG, wantG.Trace, gotTraceG)
+		return res
+	}
+	for i, name := range []string{"a", "b", "c", "d", "w"} {
+		if v, _ := slip.CurrentPackage.Get(name); v != slip.Fixnum(9001+i) {
+			res.Err = fmt.Sprintf("program:\n%s\n  changed the global variable %s to %s although it binds every variable it uses", c.Prog, name, slip.ObjectString(v))
+			return res
+		}
+	}
 	special := kinds["setq"] || kinds["lambda"] || kinds["dotimes"] || kinds["dolist"] || kinds["do"] || kinds["do*"] ||
 		kinds["multiple-value-bind"] || kinds["multiple-value-list"] || kinds["funcall"] || kinds["mapcar"]
 	res.NonTrivial = len(kinds) >= 3 && depth >= 3 && len(m.Trace) >= 2 && special
